@@ -162,7 +162,7 @@ func (e *Exec) execCall(f *Frame, b *ssa.BasicBlock, instr ssa.Instruction, c *s
 				cc.key = "param:" + p.Name()
 			}
 			e.safety("nilfunc", Not(Eq(fv.Term, "0")), reach, "call of nil function value "+c.Value.Name())
-			cc.names = []string{c.Value.Name()}
+			cc.names = []string{sourceNameOf(c.Value)}
 			e.siteClauses(cc)
 			e.setResult(f, result, e.dynamicCall(cc, fv))
 			return
@@ -176,7 +176,7 @@ func (e *Exec) execCall(f *Frame, b *ssa.BasicBlock, instr ssa.Instruction, c *s
 // in the root contract's `callback` clause are havocked.
 func (e *Exec) dynamicCall(cc *callCtx, fv Val) Val {
 	e.note("call through function value " + cc.key + ": result unconstrained")
-	name := cc.common.Value.Name()
+	name := sourceNameOf(cc.common.Value)
 	// uninterpreted result of (callee identity, args) for pure callbacks
 	if e.rootCtr != nil && e.rootCtr.PureCallbacks[name] {
 		return e.pureCallback(fv, cc.args, cc.resT)
@@ -195,6 +195,23 @@ func (e *Exec) dynamicCall(cc *callCtx, fv Val) Val {
 					}
 					if strings.HasPrefix(c, "OM_") || (deref(arg.T) != nil && c == "H_"+e.reg.typeId(deref(arg.T))) {
 						e.havocCompAt(cc.st, c, r)
+					}
+				}
+				// the content map of an *Unstructured argument (same map object, arbitrary new content)
+				if el := deref(arg.T); el != nil && strings.HasSuffix(el.String(), "unstructured.Unstructured") {
+					a := e.addrOf(arg)
+					content := e.load(cc.st, &Addr{Kind: a.Kind, Root: a.Root, Ref: a.Ref, Path: []int{0}})
+					if mt, ok := unalias(content.T).Underlying().(*types.Map); ok {
+						dn, ds, vn, vs := e.mapNames(mt)
+						ln, ls := e.mapLenName(mt)
+						e.comp(cc.st, dn, ds)
+						e.comp(cc.st, vn, vs)
+						e.comp(cc.st, ln, ls)
+						cm := e.define(cc.f.prefix+"content", "Int", content.Term)
+						for _, c := range []string{dn, vn, ln} {
+							e.havocCompAt(cc.st, c, cm)
+						}
+						e.assume(app(">=", Select(e.comp(cc.st, ln, ls), cm), "0"), "")
 					}
 				}
 			}
@@ -995,6 +1012,12 @@ func (e *Exec) checkCallbackArgs(cc *callCtx, fn *ssa.Function, ctr *FuncContrac
 				if isId && cb.WritesArg >= 0 && cb.WritesArg < len(cctr.Params) && id.Name == cctr.Params[cb.WritesArg] && !cctr.Writes.Elems[j] {
 					allowed = true
 				}
+				// the content map of an object argument belongs to its footprint
+				if sel, ok := ex.(*ast.SelectorExpr); ok && sel.Sel.Name == "Object" && !cctr.Writes.Elems[j] {
+					if sid, ok := sel.X.(*ast.Ident); ok && cb.WritesArg >= 0 && cb.WritesArg < len(cctr.Params) && sid.Name == cctr.Params[cb.WritesArg] {
+						allowed = true
+					}
+				}
 				if !allowed && !cctr.Writes.Elems[j] && len(cb.Extra) > 0 {
 					// the target must denote one of the callee's parameters listed in the specification
 					cenv := &Env{vars: map[string]Val{}, cur: cc.st, old: cc.st, fn: arg.Clo.Fn, ctr: cctr, lets: map[string]ast.Expr{}}
@@ -1026,4 +1049,27 @@ func (e *Exec) checkCallbackArgs(cc *callCtx, fn *ssa.Function, ctr *FuncContrac
 			e.oblige("frame", "callback."+ctr.Name, props, cc.reach, "false", "closure "+arg.Clo.Fn.Name()+" passed as callback "+p.Name()+" of "+ctr.Name+" needs a writes clause within the callback's allowance", "callback "+p.Name())
 		}
 	}
+}
+
+// sourceNameOf: the source-level name of a function value (parameter, captured variable or local).
+func sourceNameOf(v ssa.Value) string {
+	switch x := v.(type) {
+	case *ssa.Parameter:
+		return x.Name()
+	case *ssa.FreeVar:
+		return x.Name()
+	case *ssa.UnOp:
+		// load of a captured variable / address-taken local
+		switch a := x.X.(type) {
+		case *ssa.FreeVar:
+			return a.Name()
+		case *ssa.Alloc:
+			if a.Comment != "" {
+				return a.Comment
+			}
+		case *ssa.FieldAddr:
+			return fieldName(a)
+		}
+	}
+	return v.Name()
 }
